@@ -73,6 +73,18 @@ def run(ctx):
                 continue
             v = ff.resolve(stmt.value, st)
             per_well = any(isinstance(n, ast.Attribute) and n.attr == 'wells' for n in deep_walk(v))
+            # source and destination of a transfer can be regions of one plate: the before/after difference of the whole
+            # plate is negative in the wells of the other side, so a per-well transfer term must be clipped at zero
+            def has_trash(c):
+                return c.op == 'truth' and getattr(strip_refs(c.left), 'pkey', None) == 'step.trash'
+            if per_well and not gate_with(st, has_trash):
+                top = strip_refs(v)
+                clipped = isinstance(top, ast.Call) and isinstance(top.func, ast.Attribute) and \
+                    top.func.attr in ('maximum', 'clip', 'fmax') and any(const_value(a) == 0 for a in top.args[1:])
+                ctx.ob('C15.R1', fi, stmt.lineno, f"flows['{k}'] of a plate: the per-well transfer term cannot be negative",
+                       clipped, fact=('clipped at zero' if clipped else f"term {show(v, 60)} is a bare difference"),
+                       why='for a transfer between two regions of one plate the wells of the other side get a negative '
+                           'flow (flows are never negative)', key=f"unclipped per-well term {k}")
             ctx.ob('C15.R2', fi, stmt.lineno, f"flows['{k}'] of a plate is accumulated per well", per_well,
                    fact=('term is computed from the wells array' if per_well else f"term {show(v, 60)} is a scalar total"),
                    why='a total over all wells is added to every well: per-well flows of a plate are wrong',
@@ -130,8 +142,9 @@ def run(ctx):
                not bad, fact=f"{len(bad)} rounding(s) of {sorted(acc_roots)} inside the loop",
                why='flows smaller than the display precision vanish step by step: in - out no longer balances with the '
                    'amount remaining', key='running totals rounded per step')
-    from .c09 import per_instance_state
+    from .c09 import per_instance_state, record_completeness
     per_instance_state(ctx, 'C15.R4')
+    record_completeness(ctx, 'C15.R4')
     # get_amount_remaining: mode/index agreement
     gi = model.func('Recipe.get_amount_remaining')
     gf = ctx.flow(gi.qualname)
